@@ -45,12 +45,20 @@ def build_static(case):
         if r not in ks:
             ks[r] = int(rng.integers(kmin, kmax + 1))
         return ks[r]
-    rev = [c for c in range(topo.ncells()) if rng.random() < case.get("p_rev", 0.0)]
-    shifts = {c: int(rng.integers(0, 40)) for c in range(topo.ncells())} if case.get("shifts") else None
-    a, b = (int(rng.integers(2, 7)), int(rng.integers(-20, 40))) if case.get("relabel") else (1, 0)
+    # storage choices (orientation, cycle start, ids, insertion order) come from their own stream so that variants of one
+    # physical tissue share the geometry stream
+    rv = np.random.default_rng([case["seed"], 777, int(case.get("variant", 0))])
+    rev = [c for c in range(topo.ncells()) if rv.random() < case.get("p_rev", 0.0)]
+    shifts = {c: int(rv.integers(0, 40)) for c in range(topo.ncells())} if case.get("shifts") else None
+    a, b = (int(rv.integers(2, 7)), int(rv.integers(-20, 40))) if case.get("relabel") else (1, 0)
+    cell_order = None
+    if case.get("shuffle_cells"):
+        cell_order = list(sub if sub is not None else range(topo.ncells()))
+        rv.shuffle(cell_order)
+    ea, eb = (int(rv.integers(2, 5)), int(rv.integers(0, 30))) if case.get("relabel") else (1, 0)
     bm = gen.build_mesh(topo, sub, rng=rng, param_mode=case.get("param_mode", "uniform"), k_of_ridge=k_of, mobius=mob, sim=sim,
                         reverse_cells=rev, shifts=shifts, vmap=(lambda i: a * i + b), cmap=(lambda i: 2 * i + 1) if case.get("relabel") else None,
-                        center_method="mean")
+                        emap=(lambda i: ea * i + eb), cell_order=cell_order, center_method="mean")
     sc = StaticCase()
     sc.case, sc.topo, sc.sub, sc.mob, sc.sim, sc.bm, sc.rng = case, topo, sub, mob, sim, bm, rng
     return sc
@@ -163,3 +171,30 @@ def make_forsys(series, times=None, cm=False, initial_guess=None):
     for sc in series:
         sc.forsys = f
     return f
+
+
+def clone_displaced(bm, newpos, vmap=None):
+    """a copy of the mesh with the same topology, vertices at `newpos` (vertex id -> (x, y); others unchanged) and ids mapped
+    by `vmap`; returns a BuiltMesh whose vid_of_junction / vid_phys follow the new ids"""
+    out = gen.BuiltMesh()
+    vmap = vmap or (lambda i: i)
+    import forsys.vertex as fvertex
+    import forsys.edge as fedge
+    import forsys.cell as fcell
+    idm = {}
+    for k, vx in bm.vertices.items():
+        nid = vmap(int(k))
+        idm[int(k)] = nid
+        x, y = newpos.get(int(k), (vx.x, vx.y))
+        out.vertices[nid] = fvertex.Vertex(nid, float(x), float(y))
+        out.vid_phys[nid] = bm.vid_phys[int(k)]
+    for k, ed in bm.edges.items():
+        out.edges[int(k)] = fedge.SmallEdge(int(k), out.vertices[idm[int(ed.v1.id)]], out.vertices[idm[int(ed.v2.id)]])
+    for k, cl in bm.cells.items():
+        out.cells[int(k)] = fcell.Cell(int(k), [out.vertices[idm[int(v.id)]] for v in cl.vertices], center_method="mean")
+    out.vid_of_junction = {j: idm[v] for j, v in bm.vid_of_junction.items()}
+    out.cid_of_cell = dict(bm.cid_of_cell)
+    out.cell_phys = dict(bm.cell_phys)
+    out.ridge_points = {r: [idm[v] for v in ids] for r, ids in bm.ridge_points.items()}
+    out.idmap = idm
+    return out
